@@ -345,3 +345,41 @@ func exposed(n *N, ex bool) bool {
 	}
 	return false
 }
+
+// PrinterLosesParens reports whether the (unstripped) tree contains a shape that go/printer
+// prints without the parentheses it needs, because go/parser never produces it: a
+// dereference whose operand is a binary expression (*(a+b) is printed *a + b), or a
+// bidirectional/send channel type whose element is a receive-only channel type
+// (chan (<-chan T) is printed chan <-chan T, which reads as chan<- (chan T)).
+func PrinterLosesParens(n *N) bool {
+	found := false
+	Walk(n, func(x *N) bool {
+		if found {
+			return false
+		}
+		switch x.Kind {
+		case "StarExpr":
+			if len(x.Kids) == 2 && (x.Kids[1].Kind == "BinaryExpr" || hasAltKind(x.Kids[1], "BinaryExpr")) {
+				found = true
+			}
+		case "ChanType": // Begin Arrow Dir Value
+			if len(x.Kids) == 4 && x.Kids[2].Leaf != "2" && x.Kids[3].Kind == "ChanType" && len(x.Kids[3].Kids) == 4 && x.Kids[3].Kids[2].Leaf == "2" {
+				found = true
+			}
+		}
+		return true
+	})
+	return found
+}
+
+func hasAltKind(n *N, kind string) bool {
+	if n.Kind != "alt" {
+		return false
+	}
+	for _, a := range n.Kids {
+		if a.Kind == kind {
+			return true
+		}
+	}
+	return false
+}
